@@ -172,7 +172,7 @@ def run(tier):
     ck.bounds = dict(tree_depth=depth, positions=[p[0] for p in pos], name_sources=len(NAME_SRCS))
     ck.assume("trees are the C02 generator's range (C++-legal nestings only)", "template-argument position: trees with an array suffix or a grouping parenthesis are not re-parsed there (the parser reports them as raw values: known finding D20 of C02)", "AnonymousName is outside: its format is documented as unstable",
               "a failing tree is classified by the smallest failing subtree: (method/position, outer node kind, inner node kind)")
-    ck.out_of_scope(f"trees deeper than {depth}")
+    ck.out_of_scope(f"trees deeper than {depth} over the other base types, deeper than {depth + 1} over int")
     excuse = tuple(e["match"]["cls"] for e in ck.known if e.get("match", {}).get("kind") == "roundtrip")
     pool = chrun.make_pool()
     try:
@@ -182,10 +182,14 @@ def run(tier):
         shards = [(a, b) for a in range(len(pos)) for b in range(len(G.base_types()))]
         res = chrun.run(__name__, "h_rt", shards, timeout=(200 if tier == "quick" else 2400), globs=g, pool=pool)
         chrun.record(ck, res, "format_decl / format round trip of every legal tree in every position", bound=f"depth <= {depth}, {len(pos)} positions")
+        # one level deeper over the plain base type (the declarator structure is what the formatters branch on)
+        shards = [(a, 0, b) for a in range(len(pos)) for b in range(len(G.WRAPS) + 1)]
+        res2 = chrun.run(__name__, "h_rt", shards, timeout=(300 if tier == "quick" else 3600), globs=dict(g, DEPTH=depth + 1), pool=pool)
+        chrun.record(ck, res2, "the same one level deeper over the base type int", bound=f"depth <= {depth + 1}, base type int, {len(pos)} positions")
     finally:
         pool.shutdown()
     seen = set()
-    for shard, args, kw, msg in res.counterexamples:
+    for shard, args, kw, msg, depth in [c + (depth,) for c in res.counterexamples] + [c + (depth + 1,) for c in res2.counterexamples]:
         pname, sg, src, bad, cls = rt_replay(list(shard) + list(args), depth)
         ck.traces += 1
         if bad is None:
